@@ -45,6 +45,7 @@ fn tokens(s: &str) -> Vec<String> {
 const JUNK: [&str; 16] = ["\"", "\\", "{", "}", "[", "]", "(", ")", "$", ":", "\u{0}", "\u{202e}", "'", "--", "/*", "\u{1F600}"];
 fn mutate_text(rng: &mut Rng, base: &str) -> (String, &'static str) {
     let mut t = tokens(base);
+    if t.len() < 2 { return (format!("{}{}", base, rng.pick(&JUNK)), "junk appended"); }
     match rng.below(12) {
         0 | 1 => { let i = rng.below(t.len() as u64) as usize; t.remove(i); (t.concat(), "token deleted") }
         2 | 3 => { let i = rng.below(t.len() as u64) as usize; let x = t[i].clone(); t.insert(i, x); (t.concat(), "token duplicated") }
@@ -75,6 +76,8 @@ struct ObsRun { inst: Inst, model: String, restarts: usize }
 impl ObsRun {
     async fn exec(&mut self, api: &str, text: &str) -> (i64, i64, i64) {
         if !self.inst.healthy { let m = self.model.clone(); let old = std::mem::replace(&mut self.inst, Inst::start(&m).await); old.close(); self.restarts += 1; }
+        // post-mortem: if the process itself dies (stack overflow, abort) the culprit is on disk
+        let _ = std::fs::write(format!("{}/in_flight.json", WORK), json!({"api": api, "text": text}).to_string());
         let before = panics();
         let mut rng = Rng(text.len() as u64);
         let o = match api {
@@ -134,12 +137,10 @@ fn bincode_probe(ty: u64, bytes: &[u8]) -> i64 {
     match r { Err(_) => 2, Ok(true) => 0, Ok(false) => 1 }
 }
 
-pub async fn observed_streams(rng: &mut Rng, out: &mut Out, stats: &mut serde_json::Map<String, serde_json::Value>) {
+/// inputs kept from earlier failures and the witnesses of the listed classes: replayed first
+pub async fn replay_corpus(out: &mut Out) {
     let model = obs_model();
     let mut run = ObsRun { inst: Inst::start(&model).await, model: model.clone(), restarts: 0 };
-    run.inst.app.mutate(BASE_MUTATIONS[0], None).await.unwrap();
-    let mut accepted = [0usize; 8]; let mut total = [0usize; 8];
-
     // ---- corpus first (inputs kept from earlier failures; entries carrying a model term are
     //      the witnesses of the listed classes and are judged against the model)
     let mut entries: Vec<std::path::PathBuf> = std::fs::read_dir(CORPUS).map(|d| d.flatten().map(|e| e.path()).filter(|p| p.extension().map(|e| e == "json").unwrap_or(false)).collect()).unwrap_or_default();
@@ -149,6 +150,22 @@ pub async fn observed_streams(rng: &mut Rng, out: &mut Out, stats: &mut serde_js
         let api = v["api"].as_str().unwrap_or("query").to_string();
         let text = v["text"].as_str().unwrap_or("").to_string();
         let name = path.file_name().unwrap().to_string_lossy().to_string();
+        if api == "key" {
+            let bytes = hex::decode(&text).unwrap_or_default();
+            let o = sync_call(|| import_verifying_key(&bytes));
+            out.push(Case { kind: "corpus".into(), coq: v["coq"].as_str().unwrap_or("CObs 7%N").to_string(), obs: vec![o], meta: json!({"file": name}) });
+            continue;
+        }
+        if api == "size" {
+            let mut rdm = DataModel::new();
+            rdm.update(v["model"].as_str().unwrap_or("")).unwrap();
+            let obs = match QueryParser::parse(&text, &rdm) {
+                Err(_) => vec![0, 0, 0, 0],
+                Ok(p) => match PreparedQueries::build(&p) { Err(_) => vec![0, 0, 0, 0], Ok(b) => { let sql = &b.sql_queries[0].sql_query; vec![1, count_sub(sql, "SELECT \n"), count_sub(sql, "("), count_sub(sql, ")")] } },
+            };
+            out.push(Case { kind: "corpus".into(), coq: v["coq"].as_str().unwrap_or("CObs 1%N").to_string(), obs, meta: json!({"file": name, "text": text}) });
+            continue;
+        }
         if api == "bincode" {
             let bytes = hex::decode(&text).unwrap_or_default();
             let o = bincode_probe(v["type"].as_u64().unwrap_or(0), &bytes);
@@ -167,13 +184,23 @@ pub async fn observed_streams(rng: &mut Rng, out: &mut Out, stats: &mut serde_js
             out.push(Case { kind: "corpus".into(), coq: term.to_string(), obs: vec![o, pr], meta: json!({"file": name, "text": text}) });
             continue;
         }
+        let t0 = std::time::Instant::now();
         let (o, d, p) = run.exec(&api, &text).await;
-        out.push(Case { kind: "corpus".into(), coq: format!("CObs {}", gn(v["stream"].as_u64().unwrap_or(1))), obs: vec![d, p], meta: json!({"file": name, "outcome": o, "panic": if d > 0 { last_panic() } else { String::new() }}) });
+        out.push(Case { kind: "corpus".into(), coq: format!("CObs {}", gn(v["stream"].as_u64().unwrap_or(1))), obs: vec![d, p], meta: json!({"file": name, "outcome": o, "ms": t0.elapsed().as_millis() as u64, "panic": if d > 0 { last_panic() } else { String::new() }}) });
     }
+
+    run.inst.close();
+}
+
+pub async fn observed_streams(rng: &mut Rng, out: &mut Out, stats: &mut serde_json::Map<String, serde_json::Value>) {
+    let model = obs_model();
+    let mut run = ObsRun { inst: Inst::start(&model).await, model: model.clone(), restarts: 0 };
+    run.inst.app.mutate(BASE_MUTATIONS[0], None).await.unwrap();
+    let mut accepted = [0usize; 8]; let mut total = [0usize; 8];
 
     // ---- (b) mutated requests
     let groups: [(&str, u64, &[&str]); 5] = [("query", 1, &BASE_QUERIES), ("mutate", 2, &BASE_MUTATIONS), ("delete", 3, &BASE_DELETIONS), ("datamodel", 4, &BASE_MODELS), ("paramsjson", 5, &BASE_PARAMS)];
-    let n_b = scale(900, 9000);
+    let n_b = scale(600, 9000);
     for i in 0..n_b {
         let (api, stream, bases) = groups[[0usize, 0, 0, 1, 1, 1, 2, 3, 4][rng.below(9) as usize]];
         let base = *rng.pick(bases);
@@ -197,7 +224,7 @@ pub async fn observed_streams(rng: &mut Rng, out: &mut Out, stats: &mut serde_js
         let room = run.inst.app.mutate_raw(r#"mutate { sys.Room{ admin:[{verif_key:$user_id}] authorisations:[{ name:"g" rights:[{entity:"*" mutate_self:true mutate_all:true}] users:[{verif_key:$user_id}] }] } }"#, Some(p)).await.unwrap();
         room.mutate_entities[0].node_to_mutate.id
     };
-    let n_d = scale(160, 1600);
+    let n_d = scale(120, 1600);
     for _ in 0..n_d {
         if !run.inst.healthy { let old = std::mem::replace(&mut run.inst, Inst::start(&model).await); old.close(); run.restarts += 1; }
         let before = panics();
@@ -237,7 +264,7 @@ pub async fn observed_streams(rng: &mut Rng, out: &mut Out, stats: &mut serde_js
         { let mut n = Node { _entity: "1.1".into(), _json: Some("{}".into()), ..Default::default() }; n.sign(&sk).unwrap(); bincode::serialize(&IdentityAnswer { peer: n, chall_signature: vec![1; 64] }).unwrap() },
         { let mut n = Node { _entity: "1.1".into(), ..Default::default() }; n.sign(&sk).unwrap(); bincode::serialize(&n).unwrap() },
     ];
-    let n_e = scale(1500, 30000);
+    let n_e = scale(700, 30000);
     let mut decoded = 0usize;
     for i in 0..n_e {
         let ty = rng.below(11);
